@@ -61,8 +61,11 @@ MCCheckAll == {CheckOk1, [d |-> "okdeferred", src |-> "ondemand", dis |-> TRUE, 
 MCCheckSched == {CheckOk1, [d |-> "throttled", src |-> "same", dis |-> FALSE, same |-> FALSE, proxy |-> TRUE]}
 MCCheckOkOnly == {CheckOk1}
 MCNextAll == {[kind |-> "both", dt |-> 3600, minwait |-> None], [kind |-> "wall", dt |-> 60, minwait |-> Some(30)],
-              [kind |-> "mono", dt |-> 60, minwait |-> Some(30)], [kind |-> "both", dt |-> 60, minwait |-> None, mwms |-> Some(500)],
-              [kind |-> "wall", dt |-> 0, minwait |-> Some(30), abs |-> Some(5000)]}
+              [kind |-> "mono", dt |-> 60, minwait |-> Some(30)], [kind |-> "both", dt |-> 60, minwait |-> None, mwms |-> Some(500)]}
+\* an absolute deadline: the policy returns the identical timing at every iteration
+NextAbs == [kind |-> "wall", dt |-> 0, minwait |-> Some(30), abs |-> Some(5000)]
+MCNextAllAbs == MCNextAll \cup {NextAbs}
+MCNextAbs == {NextAbs, [kind |-> "both", dt |-> 3600, minwait |-> None]}
 MCNext1 == {[kind |-> "both", dt |-> 3600, minwait |-> None]}
 
 MCDraws2 == {-500, 499}
